@@ -9,7 +9,7 @@ def check(tier):
     rep = Reporter(PID, tier)
     pvh = build_harness()
     cfgs = ["MC_RenderC09_q.cfg", "MC_RenderC09_elif.cfg", "MC_RenderC09_elifloop.cfg", "MC_RenderC09_forfor.cfg",
-            "MC_RenderC09_for3.cfg", "MC_RenderC09_elif3.cfg"]
+            "MC_RenderC09_for3.cfg", "MC_RenderC09_elif3.cfg", "MC_RenderC09_stale.cfg"]
     if tier != "quick":
         cfgs.append("MC_RenderC09_t.cfg")
     rendercommon.render_replay(rep, pvh, "MC_RenderC09", cfgs)
